@@ -1302,6 +1302,21 @@ static int exec_line(char* line)
     free(imgs[im].p);
     imgs[im] = unhex(tk[2]);
   }
+  else if (strcmp(op, "imgfile") == 0)
+  {
+    // imgfile <slot> <path>: load an image from a file
+    int im = slot(tk[1], NIMG);
+    FILE* f = fopen(tk[2], "rb");
+    if (!f)
+      die("imgfile: cannot open %s", tk[2]);
+    fseek(f, 0, SEEK_END);
+    long n = ftell(f);
+    fseek(f, 0, SEEK_SET);
+    free(imgs[im].p);
+    imgs[im].p = (uint8_t*) malloc(n + 1);
+    imgs[im].n = fread(imgs[im].p, 1, n, f);
+    fclose(f);
+  }
   else if (strcmp(op, "imgcut") == 0)
   {
     // imgcut <src> <dst> <n>: dst = first n bytes of src
